@@ -342,6 +342,13 @@ class Scheduler:
         nxt.sem.release()
 
     def _switch(self, kind: str, cur: SimThread) -> None:
+        if _POINT_LOG is not None:
+            # diagnostic only (SIM_POINT_LOG): where does every schedule point come from
+            f = sys._getframe(1)
+            while f is not None and f.f_globals.get("__name__", "").startswith("sim."):
+                f = f.f_back
+            where = f"{f.f_code.co_filename.rsplit('/', 2)[-2]}/{f.f_code.co_filename.rsplit('/', 1)[-1]}:{f.f_lineno}:{f.f_code.co_name}" if f is not None else "?"
+            _POINT_LOG.append(f"{self.pt} {kind} {cur.sid} t={self.now_us} {where}")
         nxt = self._choose(kind, cur)
         if nxt is cur:
             if cur.state == "blocked":
@@ -854,6 +861,15 @@ def v_urandom(n: int) -> bytes:
 # Installation
 
 _INSTALLED = False
+_POINT_LOG: list | None = [] if os.environ.get("SIM_POINT_LOG") else None
+
+
+def dump_point_log() -> None:
+    if _POINT_LOG is not None:
+        with open(f"{os.environ['SIM_POINT_LOG']}.{os.getpid()}", "w") as f:
+            f.write("\n".join(_POINT_LOG))
+
+
 _EXCLUDE_SWEEP = ("threading", "queue", "selectors", "time", "sim.sched", "subprocess", "multiprocessing")
 
 
